@@ -11,7 +11,10 @@ from harness.impl import c01types as I
 IMPORTS = "From Coq Require Import ZArith.\nFrom Ford Require Import Base.Str Base.StrX Sem.TypeSpec Sem.DeclSpec Corr.C01types."
 THEOREMS = []
 REGIONS = {1: "double-without-blank", 2: "blank-after-star", 3: "len-expression-truncated", 4: "kind-comma-truncated",
-           5: "attribute-text-spelling", 7: "dimension-attribute-vs-array-spec"}
+           5: "attribute-text-spelling", 7: "dimension-attribute-vs-array-spec", 8: "optional-statement",
+           9: "parameter-statement", 10: "dimension-attribute-vs-array-spec", 11: "intent-in-out-statement",
+           12: "double-without-blank", 13: "prefix-type-lower-cased", 14: "prefix-keyword-inside-type",
+           15: "result-attribute-statements-ignored"}
 UNMODELLED, MALFORMED = 1000, 2000
 
 
@@ -73,6 +76,166 @@ def gen_ptype_strings(rng, n):
                 text2 = text[:i] + text[i].swapcase() + text[i + 1:]
             out.append(text2)
     return out
+
+
+def iunit_coq(o):
+    if o[0] == "ok":
+        u = o[1]
+        rv = "None" if u["retvar"] is None else f"(Some {G.var_coq(u['retvar'])})"
+        return (f"(IUOk {G.cstrs(u['attribs'])} {coq_list(G.var_coq(v) for v in u['args'])} {rv} "
+                f"{coq_list(G.var_coq(v) for v in u['vars'])})")
+    return f"(IUErr {G.cstr(o[1])})"
+
+
+def unit_out_ok(o):
+    if o[0] != "ok":
+        return True
+    u = o[1]
+    vs = list(u["args"]) + list(u["vars"]) + ([u["retvar"]] if u["retvar"] else [])
+    return all(G.var_ok(v) for v in vs)
+
+
+def header_groups(kind, header):
+    """the groups of FORD's own header patterns (the model takes them as input)"""
+    import ford.sourceform as sf
+    if kind == "module":
+        m = sf.FortranContainer.MODULE_RE.match(header)
+        return {"name": m.group("name")} if m else None
+    rx = sf.FortranContainer.SUBROUTINE_RE if kind == "subroutine" else sf.FortranContainer.FUNCTION_RE
+    m = rx.match(header)
+    if not m:
+        return None
+    g = m.groupdict()
+    return {k: g.get(k) for k in ("attributes", "name", "arguments", "result")}
+
+
+RAW_UNITS = [
+    ("subroutine", "subroutine s(a, b, c, d)",
+     ["integer a, b", "real c, d", "integer x, y, z, w, p, q", "character(len=5) str", "real arr, arr2, al",
+      "optional b", "intent(in) :: a", "intent ( out ) c", "parameter (x = 5, str = 'a  b')",
+      "dimension arr(3), arr2( 2 , 2 )", "allocatable al(:)", "save y, z", "target :: w", "pointer p", "volatile q"],
+     "end subroutine s"),
+    ("subroutine", "subroutine t(a,b)", ["real, external :: a", "real, EXTERNAL :: b", "integer, save :: k", "external k2"],
+     "end subroutine"),
+    ("function", "function f(n) result(r)", ["real r", "dimension r(3)", "save r", "integer n", "intent(in) n"], "end function"),
+    ("function", "double precision function f1(x)", [], "end function"),
+    ("function", "real(WP) function f2(y, x) result(res)", ["integer x"], "end function"),
+    ("function", "type(module_t) function f3()", [], "end function"),
+    ("function", "pure integer function f4(i)", [], "end function"),
+    ("function", "character(len=10) function f5()", [], "end function"),
+    ("function", "function f6() result(r)", ["double precision r"], "end function"),
+    ("function", "elemental real(kind=8) function f7(x)", ["real(kind=8), intent(in) :: x"], "end function"),
+    ("function", "type(pure_t) function f8(a)", ["type(Pure_T), intent(in) :: a"], "end function"),
+    ("function", "integer*8 function f9()", [], "end function"),
+    ("function", "recursive function fact(n) result(r)", ["integer, intent(in) :: n", "integer :: r"], "end function fact"),
+    ("function", "function g(I, x, Kmax)", [], "end function"),
+    ("function", "character*(*) function h(s)", ["character(len=*) s"], "end function"),
+    ("function", "impure elemental function k(x)", ["real x, k"], "end function"),
+    ("subroutine", "pure subroutine p(x, y, x)", ["real, intent(in) :: x", "real, intent(out) :: y"], "end subroutine"),
+    ("subroutine", "subroutine q( a ,b, )", ["integer A", "real B"], "end subroutine"),
+    ("subroutine", "subroutine noargs", ["integer :: local = 1"], "end subroutine"),
+    ("subroutine", "subroutine e()", ["integer, parameter :: n = 3", "real :: a(n) = [1., 2., 3.]", "public :: a",
+                                      "private n", "protected a"], "end subroutine"),
+    ("module", "module mm", ["integer, public :: a", "integer, private :: b", "real, protected :: c = 1.0", "private :: a",
+                             "public b, c", "parameter (p = 3, q = 'x,y')", "integer p", "character(3) q"], "end module"),
+    ("module", "module m2", ["integer x", "dimension x(pointer_count)", "real y", "allocatable :: y(:,:)", "data x /1/",
+                             "integer z", "pointer :: z ( : )", "real w", "intent(inout) w", "value w"], "end module"),
+]
+
+
+def mutate_line(rng, line):
+    if not line:
+        return line
+    i = rng.randrange(len(line))
+    r = rng.random()
+    if r < 0.35:
+        return line[:i] + line[i + 1:]
+    if r < 0.7:
+        return line[:i] + rng.choice(" (),:=*") + line[i:]
+    return line[:i] + line[i].swapcase() + line[i + 1:]
+
+
+def classify(chk, res, cases, payload_of, what_bad, what_mismatch, stats, seen, pending):
+    unm = 0
+    if res is None:
+        return 0
+    for idx, c in enumerate(cases):
+        code = res.get(idx, 0)
+        if code == UNMODELLED:
+            unm += 1
+            continue
+        chk.traces += 1
+        payload = dict(payload_of(c), code=code,
+                       meaning="bit0 model!=impl, bit1 FORD's report differs from the declaration, bits>=2 region")
+        if code == MALFORMED:
+            pending.append(("broken-correspondence", dict(payload, what="harness renderer differs from the Coq renderer, "
+                                                          "or the abstract input is not well formed"), False))
+            continue
+        mismatch, viol, region = code & 1, code & 2, code >> 2
+        outside = False
+        if viol:
+            chk.disagreements += 1
+            key = REGIONS.get(region)
+            stats[key or "none"] = stats.get(key or "none", 0) + 1
+            if key is None or not chk.known(key, True):
+                outside = True
+                pending.append(("failing-input", dict(payload, what=what_bad, region=region), True))
+            else:
+                seen.add(key)
+        if mismatch and not outside:
+            pending.append(("broken-correspondence", dict(payload, what=what_mismatch), False))
+    return unm
+
+
+def run_units(chk, judge, P, stats, seen, pending):
+    rng = chk.rng
+    quick = chk.tier == "quick"
+    # (3) raw units: hand-written shapes and edited copies
+    raws = list(RAW_UNITS)
+    for _ in range(120 if quick else 3000):
+        kind, header, lines, end = rng.choice(RAW_UNITS)
+        lines = list(lines)
+        if lines and rng.random() < 0.8:
+            j = rng.randrange(len(lines))
+            lines[j] = mutate_line(rng, lines[j])
+        else:
+            header = mutate_line(rng, header)
+        raws.append((kind, header, lines, end))
+    rcases = []
+    for kind, header, lines, end in raws:
+        g = header_groups(kind, header)
+        if g is None or not all(core.is_ascii(x) for x in [header] + lines):
+            continue
+        out = P.unit(kind, header, lines, end)
+        if not unit_out_ok(out):
+            continue
+        rcases.append((kind, header, lines, g, out))
+        chk.count(("unit", header, tuple(lines)), sample={"header": header, "lines": lines, "ford": out})
+    terms = [f"({G.header_coq(k, g)}, {G.cstrs(lines)}, {iunit_coq(out)})" for k, h, lines, g, out in rcases]
+    res = judge(IMPORTS, "header * list str * iunit", "judge_unit", terms, shard=40)
+    unm = classify(chk, res, rcases, lambda c: {"header": c[1], "lines": c[2], "ford": c[4]}, "", 
+                   "model and FORD disagree on a small unit", stats, seen, pending)
+    # (4) abstract units in random spellings
+    ucases = []
+    for _ in range(300 if quick else 6000):
+        u = G.gen_unit(rng)
+        sp = G.gen_uspell(rng, u, plain=rng.random() < 0.15)
+        header, body, end = G.render_header(sp, u), G.render_body(sp, u["decls"]), G.render_end(sp, u)
+        g = header_groups(u["kind"], header)
+        if g is None:
+            continue
+        out = P.unit(u["kind"], header, body, end)
+        if not unit_out_ok(out):
+            continue
+        ucases.append((u, sp, header, body, end, g, out))
+        chk.count(("aunit", header, tuple(body)), sample={"header": header, "lines": body, "ford": out})
+    terms = [f"(mkuc {G.unit_coq(u)} {G.uspell_coq(sp)} {G.cstr(h)} {G.cstrs(b)} {G.cstr(e)} {G.header_coq(u['kind'], g)} "
+             f"{iunit_coq(out)})" for u, sp, h, b, e, g, out in ucases]
+    res = judge(IMPORTS, "ucase", "judge_uspec", terms, shard=30)
+    unm += classify(chk, res, ucases, lambda c: {"header": c[2], "lines": c[3], "abstract": c[0], "spelling": c[1], "ford": c[6]},
+                    "a declared entity of a unit is reported differently from its declaration",
+                    "model and FORD disagree on a generated unit", stats, seen, pending)
+    return len(rcases), len(ucases), unm
 
 
 def run_part(chk, judge=None):
@@ -142,9 +305,10 @@ def run_part(chk, judge=None):
                         seen.add(key)
                 if mismatch and not outside:
                     pending.append(("broken-correspondence", dict(payload, what="model and FORD disagree on a declaration"), False))
+        nraw, nunits, unm2 = run_units(chk, judge, P, stats, seen, pending)
         for kind, payload, found in sorted(pending, key=lambda x: not x[2]):
             chk.violation(kind, payload, found)
-        chk.extra["c01types"] = {"parse_type_strings": len(strings), "declarations": len(cases), "unmodelled": unm,
-                                 "regions": stats}
+        chk.extra["c01types"] = {"parse_type_strings": len(strings), "declarations": len(cases), "raw_units": nraw,
+                                 "abstract_units": nunits, "unmodelled": unm + unm2, "regions": stats}
     finally:
         P.close()
